@@ -44,7 +44,7 @@ def build(spec, root=None):
 def gen_spec(rng):
     two = rng.random() < 0.6
     return {'na': rng.choice([0, 1]), 'beta_a': [rng.choice([1, 2]), 1], 'two': two, 'three': two and rng.random() < 0.6,
-            'steps': rng.randint(4, 6), 'seed': rng.randrange(10 ** 6)}
+            'steps': rng.randint(4, 6), 'seed': rng.randrange(10 ** 6), 'continued': rng.random() < 0.5}
 
 
 def truthful(system, res, info):
@@ -102,16 +102,27 @@ def run_case(ctx, res, spec):
             inside = [counts_before[i].get(kind, 0) + j for i in first_steps if i < len(counts_before) for j in (1, 2, 3)]
             ks = sorted({k for k in [1, 2, n] + inside + rnd.sample(range(1, n + 1), min(2, n)) if 1 <= k <= n})
         points.extend((kind, k) for k in ks)
+    k0 = 2 if spec.get('continued') and nsteps_done >= 4 else 0
+    if k0:
+        points = [(kind, at) for kind, at in points if at > counts_before[k0].get(kind, 0)]
+        res.hit('interrupted-call-continues-an-existing-history')
     for kind, at in points:
-        info = {'spec': spec, 'crash_kind': kind, 'crash_at': at}
+        info = {'spec': spec, 'crash_kind': kind, 'crash_at': at, 'continued_from': k0}
         root = tempfile.mkdtemp(prefix='amisc_c13_')
         try:
-            K.arm(kind, at)
             system = build(spec, root=root)
             np.random.seed(spec['seed'])
             crashed = False
             try:
-                system.fit(max_iter=nsteps_done, num_refine=20, update_bounds=False, max_tol=-np.inf)
+                if k0:
+                    # the interrupted call CONTINUES an existing history (an earlier fit() call on the same object went through)
+                    K.arm(None, -1); K.CRASH['armed'] = False
+                    system.fit(max_iter=k0, num_refine=20, update_bounds=False, max_tol=-np.inf)
+                    K.arm(kind, at - counts_before[k0].get(kind, 0))
+                    system.fit(max_iter=nsteps_done - k0, num_refine=20, update_bounds=False, max_tol=-np.inf)
+                else:
+                    K.arm(kind, at)
+                    system.fit(max_iter=nsteps_done, num_refine=20, update_bounds=False, max_tol=-np.inf)
             except K.Interrupt:
                 crashed = True
             finally:
@@ -225,6 +236,9 @@ def run(ctx: core.Ctx, only=None) -> core.Result:
         [c.get('spec', c) for c in core.corpus_cases('C13')] + [gen_spec(ctx.rng) for _ in range(ctx.scale(2, 8))]
     if only is None and specs:
         specs[-1].update(two=True, three=True)     # every run has a system with a surrogate-less component
+        specs[0]['continued'] = True               # … and one whose interrupted call continues an existing history
+        if len(specs) > 1:
+            specs[-1]['continued'] = False
     for spec in specs:
         with core.guarded(res, 'scenario-raised', {'spec': spec}):
             run_case(ctx, res, spec)
